@@ -41,7 +41,7 @@ PURE_CONST_METHODS = {
 # method names considered pure on arbitrary receivers (no effect record)
 PURE_METHODS = PURE_CONST_METHODS | {
     "public_key", "public_numbers", "digest", "hexdigest", "group", "groups", "fullmatch", "match", "search",
-    "with_suffix", "is_file", "is_dir", "exists", "absolute", "resolve", "minaddr", "maxaddr", "tobinstr",
+    "with_suffix", "is_file", "is_dir", "exists", "absolute", "resolve",
     "read", "readlines", "pack", "finalize", "union", "private_bytes", "public_bytes",
 }
 KW_ORDER = {  # keyword → positional normalisation for a few well-known callables
@@ -252,7 +252,8 @@ class Evaluator:
                 return (isinstance(t, Const) and isinstance(t.v, (bytes, str, list, tuple))) or (
                     isinstance(t, App) and t.op in ("cat", "list", "tuple", "cbor", "fstr", "str", "meth:to_bytes",
                                                     "meth:ljust", "attr:bytes", "bytes", "repeat", "meth:hex",
-                                                    "meth:encode", "slice", "urandom"))
+                                                    "meth:encode", "slice", "urandom", "hash", "meth:tobinstr", "filebytes",
+                                                    "a2b_hex", "byte", "meth:pack", "meth:public_bytes"))
             if seqlike(l) or seqlike(r):
                 # list + list with known elements
                 li, ri = list_items(l), list_items(r)
@@ -608,12 +609,6 @@ class Evaluator:
                 return Const(val)
             except Exception:
                 pass
-        # functional updates of local containers
-        if name in ("append", "extend", "update", "insert", "remove", "pop", "clear", "reverse", "sort"):
-            t = App("meth:" + name, [recv] + args + self.kwterms(kwargs), e)
-            self.record_call(t, st)
-            self._mutate_local(e.func.value, recv, name, args, st)
-            return t
         # hash object idiom
         if isinstance(recv, App) and recv.op == "hashobj":
             if name == "update":
@@ -622,6 +617,12 @@ class Evaluator:
                 return Const(None)
             if name == "finalize":
                 return App("hash", (recv.args[0], mk_cat(recv.args[1:]) if len(recv.args) > 1 else Const(b"")), e)
+        # functional updates of local containers
+        if name in ("append", "extend", "update", "insert", "remove", "pop", "clear", "reverse", "sort"):
+            t = App("meth:" + name, [recv] + args + self.kwterms(kwargs), e)
+            self.record_call(t, st)
+            self._mutate_local(e.func.value, recv, name, args, st)
+            return t
         # bound repo methods / class methods
         ci = self.class_of_instance(recv, fr)
         if ci is not None:
@@ -801,7 +802,7 @@ class Evaluator:
             return App("a2b_hex", args, e)
         # generic external call; constructors (Capitalised) get an allocation-site id
         extra = []
-        if short[:1].isupper():
+        if short[:1].isupper() and ".hashes." not in dotted:
             extra = [Const(("site", getattr(e, "lineno", 0), getattr(e, "col_offset", 0)))]
         t = App("call:" + dotted, extra + args + self.kwterms(kwargs) + ([App("starkw", (starkw,))] if starkw else []), e)
         self.record_call(t, st)
